@@ -164,6 +164,47 @@ static void op_fullkey(const V &a, V &r) {
     r.push_back(P->tgsw_params->l); r.push_back(P->tgsw_params->Bgbit); r.push_back(P->ks_t); r.push_back(P->ks_basebit);
     for (int i = 0; i < n; i++) r.push_back(cur.sk->lwe_key->key[i]);
 }
+// keyimage spec -> for every i < n: max |bk[i] - (bkFFT[i] converted back)| over all coefficients (n values)
+static void op_keyimage(const V &a, V &r) {
+    need_keys(a);
+    const TFheGateBootstrappingParameterSet *P = cur.params; const int n = P->in_out_params->n;
+    const TGswParams *gp = P->tgsw_params; const TLweParams *tp = gp->tlwe_params;
+    const LweBootstrappingKey *bk = cur.sk->cloud.bk; const LweBootstrappingKeyFFT *bf = cur.sk->cloud.bkFFT;
+    TGswSample *g2 = new_TGswSample(gp);
+    for (int i = 0; i < n; i++) {
+        tGswFromFFTConvert(g2, &bf->bkFFT[i], gp);
+        ll worst = 0;
+        for (int q = 0; q < (tp->k + 1) * gp->l; q++) for (int u = 0; u <= tp->k; u++) for (int j = 0; j < tp->N; j++) {
+            ll d = (ll) (int32_t) ((uint32_t) g2->all_sample[q].a[u].coefsT[j] - (uint32_t) bk->bk[i].all_sample[q].a[u].coefsT[j]);
+            if (d < 0) d = -d; if (d > worst) worst = d;
+        }
+        r.push_back(worst);
+    }
+    delete_TGswSample(g2);
+}
+// brpair spec bara(n) v(N) -> ring key (k*N), then the phase polynomial of blindRotate(trivial accumulator with body v) for the
+// coefficient-domain and for the FFT-domain variant (N values each)
+static void op_brpair(const V &a, V &r) {
+    need_keys(a);
+    const TFheGateBootstrappingParameterSet *P = cur.params; const int n = P->in_out_params->n;
+    const TGswParams *gp = P->tgsw_params; const TLweParams *tp = gp->tlwe_params; const int N = tp->N, k = tp->k;
+    const ll *v = a.data() + SPECN;
+    std::vector<int32_t> bara(n); for (int i = 0; i < n; i++) bara[i] = (int32_t) v[i];
+    const TLweKey *tk = &cur.sk->tgsw_key->tlwe_key;
+    for (int u = 0; u < k; u++) for (int j = 0; j < N; j++) r.push_back(tk->key[u].coefs[j]);
+    TorusPolynomial *ph = new_TorusPolynomial(N);
+    for (int var = 0; var < 2; var++) {
+        TLweSample *acc = new_TLweSample(tp);
+        for (int u = 0; u <= k; u++) for (int j = 0; j < N; j++) acc->a[u].coefsT[j] = (u == k) ? (int32_t) v[n + j] : 0;
+        acc->current_variance = 0;
+        if (var == 0) tfhe_blindRotate(acc, cur.sk->cloud.bk->bk, bara.data(), n, gp);
+        else tfhe_blindRotate_FFT(acc, cur.sk->cloud.bkFFT->bkFFT, bara.data(), n, gp);
+        tLwePhase(ph, acc, tk);
+        for (int j = 0; j < N; j++) r.push_back(ph->coefsT[j]);
+        delete_TLweSample(acc);
+    }
+    delete_TorusPolynomial(ph);
+}
 // fullcase spec mu mask a(n) b -> phases of the selected variants (1 woKS_FFT, 2 woKS, 4 FFT+KS, 8 coefficient+KS)
 static void op_fullcase(const V &a, V &r) {
     need_keys(a);
@@ -260,6 +301,8 @@ int main() {
         if (op == "tgsw") op_tgsw(a, r);
         else if (op == "boot") op_boot(a, r);
         else if (op == "bkgen") op_bkgen(a, r);
+        else if (op == "keyimage") op_keyimage(a, r);
+        else if (op == "brpair") op_brpair(a, r);
         else if (op == "fullkey") op_fullkey(a, r);
         else if (op == "fullcase") op_fullcase(a, r);
         else if (op == "gatecase") op_gatecase(a, r);
